@@ -50,9 +50,10 @@ def verify_function(qualname, timeout_ms=10000, want_smt2=False):
     except OutOfSubset as ex:
         out["status"] = "out_of_subset"
         out["reason"] = str(ex)
-    except KeyError as ex:
-        out["status"] = "missing"
-        out["reason"] = f"{ex}"
+    except (AttributeError, KeyError) as ex:
+        # the contract mentions a parameter / local / loop that the current source does not have: the contract no longer applies
+        out["status"] = "out_of_subset"
+        out["reason"] = f"contract refers to `{ex}` which does not exist in the current source (function restructured): " + "".join(traceback.format_exception(ex))[-300:]
     except Exception as ex:
         out["status"] = "crash"
         out["reason"] = "".join(traceback.format_exception(ex))[-3000:]
